@@ -78,7 +78,7 @@ func C07(r *drv.Run) {
 		nReaderOps = 600000
 		rounds = 4
 	}
-	r.Rule = "(1) differential: RunFiles([f], NOTHING) == Run(string(bytes of f)) on every field but Filename, for 16 programs forcing forward scans, one-byte-back reads (line/word anchors), far-back seeks (lazy scan to EOF that fails; greedy loop over a ~1500 byte run straddling offset 4096 that backtracks) x 17 file sizes (0, 1, 2, around 2048/4096/6144/8192, 12 000, 20 000) with needles planted around every multiple of 2048, regular files with the setuid, setgid or sticky bit, files whose names end in the suffixes the tool itself produces (x.vored next to x, x.vored.vored, .vored) and other tool-like suffixes, files that begin with a byte-order mark (UTF-8, UTF-16 either way, half of one, two of them), an interpreter line, a magic number or NUL bytes, also the same files reached through symbolic links and through names whose `..` follows a link to a directory elsewhere, files owned by another user than the searching process (as root: the worker runs as user 65534 over root's scratch files; otherwise root-owned system files), several files (an empty one among them; one file listed twice and three times under one spelling) in one call, 600 small files in one call while the process may hold 256 file descriptors, a directory argument (== the files directly inside it, in name order) under three spellings, and sessions in which the same path is rewritten with different bytes of the same size and searched again within one process; (2) online monitor (hook H4): every read the engine issues to the backing store is compared with the ground-truth bytes at the offset the Reader believes it is at; re-centres forward/backward, reads spanning a 4096 boundary and reads of the last byte are counted; (3) direct driver: long random Seek/Read/ReadAt/anchor-pair histories, also several Reads in a row behind one Seek (each continues where the one before stopped; the engine itself always seeks first, the property's last sentence says any sequence), on files.ReaderFromFile vs ReaderFromString vs the bytes, offsets biased to 0, window edges, size-1, size, with 180 other readers on files opened and kept open in the middle of each history; the same on files of 1 MiB + 37, 4 MiB and 64 MiB + 5 904 bytes with offsets biased to the first and last 80 KiB and reads of up to 3 MiB; and on SPARSE files of 3 GiB + 17, 4 GiB + 8 292 and 8 GiB + 12 345 bytes (written only around 0, 2^30, 2^31, 2^32, 2^32 + 2^31, 2^33 and the end), jumping between those places, every read compared with pread through a descriptor of the harness's own. Non-trivial = engine case with >= 1 match and >= 1 window re-centre, or reader history with >= 1 backward re-centre; distinct by (program, size, content seed)."
+	r.Rule = "(1) differential: RunFiles([f], NOTHING) == Run(string(bytes of f)) on every field but Filename, for 16 programs forcing forward scans, one-byte-back reads (line/word anchors), far-back seeks (lazy scan to EOF that fails; greedy loop over a ~1500 byte run straddling offset 4096 that backtracks) x 17 file sizes (0, 1, 2, around 2048/4096/6144/8192, 12 000, 20 000) with needles planted around every multiple of 2048, regular files with the setuid, setgid or sticky bit, files whose names end in the suffixes the tool itself produces (x.vored next to x, x.vored.vored, .vored) and other tool-like suffixes, files that begin with a byte-order mark (UTF-8, UTF-16 either way, half of one, two of them), an interpreter line, a magic number or NUL bytes, also the same files reached through symbolic links and through names whose `..` follows a link to a directory elsewhere, files owned by another user than the searching process (as root: the worker runs as user 65534 over root's scratch files; otherwise root-owned system files), several files (an empty one among them; one file listed twice and three times under one spelling) in one call, 600 small files in one call while the process may hold 256 file descriptors, a directory argument (== the files directly inside it, in name order) under three spellings, and sessions in which the same path is rewritten with different bytes of the same size and searched again within one process; also a searched file that is what the standard output of the searching process is connected to (same name, hard link, symbolic link); (2) online monitor (hook H4): every read the engine issues to the backing store is compared with the ground-truth bytes at the offset the Reader believes it is at; re-centres forward/backward, reads spanning a 4096 boundary and reads of the last byte are counted; (3) direct driver: long random Seek/Read/ReadAt/anchor-pair histories, also several Reads in a row behind one Seek (each continues where the one before stopped; the engine itself always seeks first, the property's last sentence says any sequence), on files.ReaderFromFile vs ReaderFromString vs the bytes, offsets biased to 0, window edges, size-1, size, with 180 other readers on files opened and kept open in the middle of each history; the same on files of 1 MiB + 37, 4 MiB and 64 MiB + 5 904 bytes with offsets biased to the first and last 80 KiB and reads of up to 3 MiB; and on SPARSE files of 3 GiB + 17, 4 GiB + 8 292 and 8 GiB + 12 345 bytes (written only around 0, 2^30, 2^31, 2^32, 2^32 + 2^31, 2^33 and the end), jumping between those places, every read compared with pread through a descriptor of the harness's own. Non-trivial = engine case with >= 1 match and >= 1 window re-centre, or reader history with >= 1 backward re-centre; distinct by (program, size, content seed)."
 	r.Assumptions = []string{"the online read monitor trusts only the bytes the harness itself wrote to the file"}
 	dir := filepath.Join(r.WorkDir, "c07")
 	os.MkdirAll(dir, 0o755)
@@ -561,6 +561,7 @@ func C07(r *drv.Run) {
 		}
 	}
 	c07Sparse(r)
+	c07Stdio(r)
 	// direct reader histories
 	r.Exec(len(files)*2, drv.ExecOpts{Batch: 3}, func(i int) *drv.Item {
 		f := files[i/2]
